@@ -5,7 +5,7 @@
    Statements only; proofs are in P_Tree.v, P_Decoder.v (and P_Null / P_Lz5 /
    P_Lzs / P_BitReader as they are completed). *)
 From Lhasa Require Import Base ListN DecBase BitReader Tree Null Lzs Lz5 Generated Decoder
-  P_Tree P_Decoder P_DecoderInv P_Null P_Lz5 P_BitReader P_Lzs.
+  P_Tree P_Decoder P_DecoderInv P_Null P_Lz5 P_BitReader P_Lzs LhNew P_LhNew.
 Local Open Scope N_scope.
 
 (* --- lib/tree_decode.c, shared by the lh4-7/x, lk7 and pm2 decoders --- *)
@@ -103,6 +103,45 @@ Proof. exact P_Lz5.lz5_init_ok. Qed.
 Theorem lzs_init_inv : exists s0, lzs_init = Ok s0 /\ lzs_inv s0.
 Proof. exact P_Lzs.lzs_init_ok. Qed.
 
+(* lh4 / lh5 / lh6 / lh7 / lhx / lk7 (lib/lh_new_decoder.c): for ANY callback -- arbitrary
+   bytes, arbitrary chunking, endless or not -- one read() never reaches a Fault
+   (temp/code/offset length arrays, the three trees incl. over-subscribed and
+   incomplete tables and single-code forms with the largest raw values, ring
+   buffer, output buffer) and, when it returns, returns at most max_read bytes and
+   keeps the invariant.  params_ok collects the numeric facts about the generated
+   constants (e.g. COPY_THRESHOLD + 255 <= max_read), proved by vm_compute for
+   each of the six instances: a C constant changed inconsistently breaks them. *)
+Theorem lhnew_never_faults : forall P, params_ok P -> forall cbs (cb : callback cbs), cb_bounded cb ->
+  forall s c, lhnew_inv P s ->
+  match lhnew_read cb P s c with
+  | Ok (ch, s', c') => nlen ch <= p_max_read P /\ lhnew_inv P s'
+  | Fault _ => False
+  | OutOfFuel => True
+  end.
+Proof. exact lhnew_read_safe. Qed.
+
+(* ... and it returns whenever the input ends (m measures the bytes the callback can
+   still deliver; the model's loop fuel covers inputs below 2^27 bytes).  On an
+   endless input of one-bits the unary length loop never ends -- in the C as in the
+   model (theorem lhnew_read_not_total_for_endless_input in P_LhNew.v); through the
+   library the input is always bounded by the member's compressed length. *)
+Theorem lhnew_read_returns : forall P, params_ok P ->
+  forall cbs (cb : callback cbs) (m : cbs -> N), cb_bounded cb -> cb_finite cb m ->
+  forall s c, lhnew_inv P s -> bits (ln_bsr s) + 8 * m c < 2 ^ 30 ->
+  exists ch s' c', lhnew_read cb P s c = Ok (ch, s', c') /\ nlen ch <= p_max_read P /\ lhnew_inv P s' /\
+    bits (ln_bsr s') + 8 * m c' <= bits (ln_bsr s) + 8 * m c.
+Proof. exact lhnew_read_total. Qed.
+
+Theorem lhnew_params_ok_all : params_ok lh4_params /\ params_ok lh5_params /\ params_ok lh6_params /\
+  params_ok lh7_params /\ params_ok lhx_params /\ params_ok lk7_params.
+Proof.
+  split; [exact lh4_params_ok|]. split; [exact lh5_params_ok|]. split; [exact lh6_params_ok|].
+  split; [exact lh7_params_ok|]. split; [exact lhx_params_ok|exact lk7_params_ok].
+Qed.
+
+Theorem lhnew_init_inv : forall P, params_ok P -> exists s, lhnew_init P = Ok s /\ lhnew_inv P s.
+Proof. exact lhnew_init_ok. Qed.
+
 (* ... and through the API: any read on a decoder whose inner decoder keeps an
    invariant returns normally, with at most the bytes asked for *)
 Theorem api_read_total_inv : forall (cbs st : Type) (dread : st -> cbs -> outcome (list N * st * cbs))
@@ -118,6 +157,10 @@ Print Assumptions read_from_tree_never_faults.
 Print Assumptions null_never_faults.
 Print Assumptions lz5_never_faults.
 Print Assumptions lzs_never_faults.
+Print Assumptions lhnew_never_faults.
+Print Assumptions lhnew_read_returns.
+Print Assumptions lhnew_params_ok_all.
+Print Assumptions lhnew_init_inv.
 Print Assumptions api_read_total_inv.
 Print Assumptions build_tree_safe_u8.
 Print Assumptions init_tree_safe.
